@@ -584,6 +584,8 @@ def run_cli_memory_safety(ctx):
         for tail in ('', '\n', '\r\n'):
             jobs.append(('keyfile', klen, tail))
     jobs.append(('keyfile-nul',))
+    for pos in (0, 1, 31, 63):
+        jobs.append(('checkbytes', pos))
     for linelen in (10, 63, 64, 65, 66, 67, 1022, 1023, 1024, 1025, 1026, 2047, 2048, 5000):
         jobs.append(('checkline', linelen))
     for digits in (0, 1, 62, 63, 64, 65, 66, 128, 1000):
@@ -639,6 +641,21 @@ def run_cli_memory_safety(ctx):
                 rc, out, err, _ = cli.run([cli.sum, '-c'], w, stdin=('a' * n).encode())
                 check_sanitizer(ctx, cli, rc, err, 'asconsum-checkfile', 'stdin check file with %d hex digits, no newline' % n)
                 ctx.distinct.add('cli-checkdigits|%d' % n)
+            elif job[0] == 'checkbytes':
+                # every byte value where a hex digit is parsed (UTF-8 BOM, Latin-1, fullwidth digits, control characters)
+                lines = [b'\xef\xbb\xbf' + b'ab' * 32 + b'  small\n', b'ab' * 10 + b'\xe9' + b'ab' * 21 + b' small\n', b'\xff' * 64 + b'  small\n',
+                         '\uff11'.encode() * 21 + b'a  small\n', b'ab' * 32 + b'\x80\x80small\n']
+                for v in range(0, 256, 1 if ctx.thorough else 5):
+                    lines.append(b'a' * job[1] + bytes([v]) + b'b' * (63 - job[1]) + b'  small\n')
+                with open(os.path.join(w, 'sums'), 'wb') as f:
+                    f.write(b''.join(lines))
+                rc, out, err, _ = cli.run([cli.sum, '-c', 'sums'], w)
+                check_sanitizer(ctx, cli, rc, err, 'asconsum-checkfile', 'check file with non-ASCII / control bytes among the digest characters (position %d)' % job[1])
+                with open(os.path.join(w, 'kb'), 'wb') as f:
+                    f.write(bytes(range(1, 256)).replace(b'\n', b'').replace(b'\r', b'') + b'\n')
+                rc, out, err, _ = cli.run([cli.crypt, '-e', '-k', 'kb', '-o', 'o.enc', 'small'], w)
+                check_sanitizer(ctx, cli, rc, err, 'asconcrypt-keyfile', 'key file with every byte value 1..255')
+                ctx.distinct.add('cli-checkbytes|pos%d' % job[1])
             shutil.rmtree(w, ignore_errors=True)
         except Exception:
             import traceback
